@@ -4,13 +4,17 @@ NOTES = ("All checks go through ./check <ID>: real sources of /repo's working tr
          "harness is dual-mode); 2 undecided/infrastructure (never a violation). See DESIGN.md.")
 TODO = "contracts for this property are not built yet in this revision (see DESIGN.md section 5 for the plan); not claimed"
 CHECKS = {
+ "C05": dict(category="other", design_ref="DESIGN.md section 5, C05",
+   technique="CBMC function + loop contracts (dfcc) for unbounded safety/frame/flag-range; bounded value contracts against double-width reference arithmetic; SMT-decided SAFE==FAST equivalence for reductions",
+   text="Mixed, stated per obligation group in the evidence: P (unbounded n, loop contracts) for memory safety inside exactly-sized arrays, frame, termination and carry/borrow/flag range of the additive zz layer; Pc (complete over all 2^W inputs) for the word-level helpers; B(N) value-exactness of zz_add/zz_mod/ww/mem functions for operand lengths up to 4 words / 19 octets under every documented aliasing and for both editions; relational SAFE==FAST for Montgomery reduction (n=1, cvc5/z3). Multiplicative value facts beyond one limb are outside every installed back end and are listed as not covered; native differential search stands in for them and is labelled as such.",
+   note="Not proof of value-exactness for all lengths: the bound is stated per group. Trusted: CBMC 6.11, cvc5/z3, the five pointer-predicate shims, harness/ref.h (double-width reference arithmetic)."),
  "C20": dict(category="proof", design_ref="DESIGN.md section 5, C20",
    technique="CBMC function contract (dfcc) on btokPwdTransition + inductive loop invariant over an unbounded event loop",
    text="The one-step contract of btokPwdTransition (frame, rejected-event-keeps-state, every single-step rule) is discharged for all reachable states x all event encodings, and the history rules (three wrong PINs, CAN before the last attempt, PUK-only unblocking, ten wrong PUKs terminal, deactivation, most-recent status) are proved as an inductive invariant of an unbounded event loop around the real function: complete for every finite history.",
    note="Trusted: CBMC 6.11; rewrite rule R1 (enum bit-field pre-decrement, front-end crash workaround, must-fire); the monitor's reading of the rules (stated in evidence.assumptions)."),
 }
 NOT_APPLICABLE = {
- "C01": TODO, "C02": TODO, "C03": TODO, "C04": TODO, "C05": TODO, "C07": TODO, "C08": TODO, "C09": TODO,
+ "C01": TODO, "C02": TODO, "C03": TODO, "C04": TODO, "C07": TODO, "C08": TODO, "C09": TODO,
  "C10": TODO, "C11": TODO, "C12": TODO, "C14": TODO, "C15": TODO, "C16": TODO, "C17": TODO, "C19": TODO,
  "C06": "EC group law / scalar multiplication: algebraic identities over GF(p)/GF(2^m) through function-pointer field objects; every query contains modular inversion/multiplication facts no installed back end decides (measured: N>=2 limb products time out); exhaustive small curves are enumeration, not contracts",
  "C13": "bels threshold recovery is CRT over GF(2)[x] with extended GCD; no quantifier-free or SMT-decidable contract states 'any t shares recover the secret'",
